@@ -298,7 +298,7 @@ def one(rep, prog, cfg):
     n_closed = sum(1 for e in an.events.values() if e["kind"] == "event:closed")
     rep.check(not [v for v in an.violations if v["rule"] == "C08.close-terminal"], "C08.close-terminal", cfg + "/closing event is terminal", "client/connection.rs",
               "see above", detail={"closing_event_sites": n_closed, "states": an.states_seen})
-    rep.floor("C08.close-terminal", cfg + "/closing event sites", n_closed, 5)
+    rep.floor("C08.close-terminal", cfg + "/closing event sites", n_closed, 3)
     rep.check(not [v for v in an.violations if v["rule"] == "C08.queue-closed"], "C08.queue-closed", cfg + "/closed queue leaves the loop", "client/connection.rs", "see above")
     rep.count("states_" + cfg, an.states_seen)
     rep.count("transitions_" + cfg, an.transitions)
